@@ -24,10 +24,13 @@ EXTENDS Naturals, Sequences, FiniteSets, TLC, Json
 
 CONSTANT MaxFlips
 
+\*   docs        one YAML document per file | the definitions of a file spread over several documents (`---`), with or without
+\*               an explicit document end marker (`...`): a model file is a YAML stream, every document of which holds definitions
 Choices == [shorthand : BOOLEAN, prim_alias : BOOLEAN, optional : {"union", "question"}, comments : BOOLEAN, blanks : BOOLEAN,
-            order : {"asis", "reversed", "rotated"}, files : {1, 2, 3}, generics : {"none", "local", "imported"}]
+            order : {"asis", "reversed", "rotated"}, files : {1, 2, 3}, generics : {"none", "local", "imported"},
+            docs : {"one", "many", "many_with_end_markers"}]
 Canonical == [shorthand |-> FALSE, prim_alias |-> FALSE, optional |-> "union", comments |-> FALSE, blanks |-> FALSE,
-              order |-> "asis", files |-> 1, generics |-> "none"]
+              order |-> "asis", files |-> 1, generics |-> "none", docs |-> "one"]
 
 VARIABLES sp, flips
 vars == <<sp, flips>>
@@ -40,7 +43,7 @@ Flip == /\ flips < MaxFlips
 Next == Flip
 Spec == Init /\ [][Next]_vars
 
-LayoutChanged == sp.order # Canonical.order \/ sp.files # Canonical.files
+LayoutChanged == sp.order # Canonical.order \/ sp.files # Canonical.files \/ sp.docs # Canonical.docs
 \* what must hold between the spelling and the canonical spelling
 Relation == IF sp.generics # "none" THEN "same_verdict_same_wire"
             ELSE IF LayoutChanged THEN "same_verdict_same_schema_same_wire" ELSE "byte_identical_output"
